@@ -175,7 +175,7 @@ def run(ctx, name, kind, **kw):
                             A = PointJacobi(cfp, P[0], P[1], 1, decl, generator=tabs in ("self", "both")) if rng.random() < 0.5 or tabs in ("self", "both") \
                                 else build(cfp, P, rng.choice(("jzr", "neg1", "negz")), rng, order=decl)
                             if Q is None:
-                                B = INFINITY
+                                B = INFINITY if rng.random() < 0.6 else Point(None, None, None)      # an identity object that is not the singleton
                             elif qn == "legacy":
                                 B = Point(cfp, Q[0], Q[1], decl)
                             else:
@@ -258,6 +258,6 @@ def run(ctx, name, kind, **kw):
                                     ("other_curve_object_table", PointJacobi(cfp2, Q[0], Q[1], 1, n, generator=True), Q),
                                     ("other_curve_object_opposite", build(cfp2, cv.neg(PA), "j1", rng, order=n), cv.neg(PA)),
                                     ("legacy", Point(cfp, Q[0], Q[1], n), Q), ("same", build(cfp, PA, "jz2", rng, order=n), PA),
-                                    ("opposite", build(cfp, cv.neg(PA), "jzr", rng, order=n), cv.neg(PA)), ("inf", INFINITY, None),
+                                    ("opposite", build(cfp, cv.neg(PA), "jzr", rng, order=n), cv.neg(PA)), ("inf", INFINITY, None), ("inf_copy", Point(None, None, None), None),
                                     ("table", vk.pubkey.point, Pm)):
                     check_muladd(ctx, dom, cfp, A, PA, a, B, QB, b, "prod.muladd", "%s|%s|%s|%s" % (fam, an, bn, "z" if a % n == 0 or b % n == 0 else "nz"), False, fam)
